@@ -235,6 +235,41 @@ theorem C11_reachable_wf (evs : List (LEv σ)) :
     WF (lrun (Listener.empty : Listener σ) evs) ∧ WF2 (lrun (Listener.empty : Listener σ) evs) :=
   WF_lrun evs _ WF_empty WF2_empty
 
+/-! ### `Listener.Close` and the closed listener (`Model/SessIn.listenerInputD`, `listenerClose`, tied by the
+`lclose` op of the `listener` component) -/
+
+/-- an open listener's `packetInput` is `listenerInput`: every C06/C11 theorem is about the tied function -/
+theorem C11_open_listener (w : World σ) (c : Cipher) (l : Listener σ) (data : Bytes) (a : String) :
+    listenerInputD w c l false data a = listenerInput w c l data a := listenerInputD_false w c l data a
+
+/-- **a closed listener creates nothing and stays isolated**: after `Listener.Close`, a datagram from `a`
+(any bytes, any cipher) never lengthens the accept queue or the object list; the state is that of the
+open listener's step with a `create` decision replaced by "close the old session, if any"; every object
+not mapped at `a` is identical and the mapping of every other address is unchanged (`C11_frame` for the
+closed listener) -/
+theorem C11_closed_listener (w : World σ) (c : Cipher) (l : Listener σ) (data : Bytes) (a : String) (hwf : WF l) :
+    (listenerInputD w c l true data a).l.accepts = l.accepts ∧
+    (listenerInputD w c l true data a).l.objs.length = l.objs.length ∧
+    (listenerInputD w c l true data a).l = deadOutcome w l (listenerInput w c l data a) ∧
+    (∀ j, j < l.objs.length → lookup l.table a ≠ some j → (listenerInputD w c l true data a).l.objs[j]? = l.objs[j]?) ∧
+    (∀ b, b ≠ a → lookup (listenerInputD w c l true data a).l.table b = lookup l.table b) :=
+  ⟨(listenerInputD_dead_shape w c l data a).1, (listenerInputD_dead_shape w c l data a).2,
+   listenerInputD_dead w c l data a, fun j hj hne => frameD_objects w c l true data a j hj hne,
+   fun b hb => frameD_table w c l true data a b hwf hb⟩
+
+/-- **`Listener.Close`** (first call): the accept queue is empty afterwards, every session that was still
+queued is closed, and every other session — accepted ones in particular — is identical and mapped as
+before.  (`Listener.Close` therefore concerns every queued session; with it in the history
+`C11_no_cross_stall` holds as stated only up to the Close, or for sessions already accepted.) -/
+theorem C11_listener_close (w : World σ) (l : Listener σ) (hwf2 : WF2 l) :
+    (listenerClose w l false).accepts = [] ∧
+    (∀ id ∈ l.accepts, id < l.objs.length → ∃ S, (listenerClose w l false).objs[id]? = some S ∧ S.closed = true) ∧
+    (∀ id, id ∉ l.accepts → (listenerClose w l false).objs[id]? = l.objs[id]? ∧
+      ∀ a, (lookup (listenerClose w l false).table a = some id ↔ lookup l.table a = some id)) ∧
+    listenerClose w l true = l :=
+  ⟨rfl, fun id hid hlt => closeAll_closed w l.accepts l id hid hlt,
+   fun id hid => ⟨closeAll_objs w l.accepts l id hid, fun a => closeAll_lookup w l.accepts l hwf2 id a hid⟩, rfl⟩
+
 /-- `C11_no_cross_stall` for the composite system of `C11_isolation` (listener open): the state of
 session `S` after the mixed history is its state after the sub-history of the listener events that
 concern `S` -/
